@@ -131,10 +131,12 @@ impl Formatter for CanonicalFormatter {
     wrapper!(write_i16, i16);
     wrapper!(write_i32, i32);
     wrapper!(write_i64, i64);
+    wrapper!(write_i128, i128);
     wrapper!(write_u8, u8);
     wrapper!(write_u16, u16);
     wrapper!(write_u32, u32);
     wrapper!(write_u64, u64);
+    wrapper!(write_u128, u128);
 
     fn write_f32<W: Write + ?Sized>(&mut self, _writer: &mut W, _value: f32) -> Result<()> {
         float_err!()
